@@ -5,6 +5,7 @@ import (
 	"encoding/json"
 	"fmt"
 	"reflect"
+	"sort"
 	"strings"
 	"time"
 
@@ -359,6 +360,7 @@ func (r *run) exec(i int, op Op, or *OpRes) {
 		r.guarded(i, or, func() error { return dig.Visualize(r.container, &buf, opts...) })
 		text := buf.String()
 		or.DotText = &text
+		or.DotNames = r.dotNames()
 		if _, panicked := or.V.(verdictPanic); !panicked {
 			if r.tnames == nil {
 				r.tnames = newTypeNames(r.ts.byID) // all composites are registered before the first op
@@ -369,6 +371,30 @@ func (r *run) exec(i int, op Op, or *OpRes) {
 	case "string":
 		r.guarded(i, or, func() error { _ = sc.String(); return nil })
 	}
+}
+
+// dotNames collects the names the model needs to write the text of the current picture itself.
+func (r *run) dotNames() (dn *DotNames) {
+	defer func() {
+		if recover() != nil {
+			dn = nil
+		}
+	}()
+	dn = &DotNames{Types: [][]interface{}{}, Ctors: dig.VerifGraphCtorNames(r.container)}
+	for _, id := range pool.IDs() {
+		if t, ok := pool.Type(id); ok {
+			dn.Types = append(dn.Types, []interface{}{id, t.String()})
+		}
+	}
+	ids := make([]int, 0, len(r.ts.byID))
+	for id := range r.ts.byID {
+		ids = append(ids, id)
+	}
+	sort.Ints(ids)
+	for _, id := range ids {
+		dn.Types = append(dn.Types, []interface{}{id, r.ts.byID[id].String()})
+	}
+	return dn
 }
 
 func (r *run) callback(opIndex int) dig.Callback {
